@@ -192,7 +192,13 @@ def judge_rand(kws, data, ctx, case):
 
     ctx.evaluated()
     ctx.count("random_sets")
-    got = kwmod.find_keywords("some.label", list(kws), data)
+    try:
+        got = kwmod.find_keywords("some.label", list(kws), data)
+    except (Exception, RecursionError) as e:  # noqa: BLE001
+        # no answer at all for a keyword set and a text: the hits are not reported
+        ctx.violation("keyword:raised:" + type(e).__name__, f"find_keywords raised {type(e).__name__} for keywords {kws[:4]} on {len(data)} bytes "
+                                                            f"starting {data[:40]!r}", case)
+        return
     want = compare("some.label", kws, data, got, ctx, case, "find_keywords")
     # history: another buffer of the same length allocated right after this one is released (same address in CPython)
     if len(data) > 2 and ctx.counters["random_sets"] % 3 == 0:
